@@ -59,9 +59,11 @@ def manifest():
                                design_ref=c.get('design_ref', 'DESIGN.md section 6 (%s)' % pid)),
             level_note='Assumed (trusted base, also scanned mechanically into the evidence): ' + '; '.join(c.get('assumptions', []))
                        + ((' | Domain restrictions: ' + '; '.join(c['domain'])) if c.get('domain') else '')
-                       + ((' | Not covered: ' + '; '.join(c['not_covered'])) if c.get('not_covered') else ''),
+                       + ((' | Not covered: ' + '; '.join(c['not_covered'])) if c.get('not_covered') else '')
+                       + ((' | BOUNDED stand-in (labelled bounded, never counted as proved): ' + c['bounded_probe']['what'] + ' -- bound: ' + c['bounded_probe']['bound']) if c.get('bounded_probe') else ''),
             technique=('contract-based deductive verification: Verus (requires/ensures/invariant/decreases woven onto mechanically extracted real functions)'
-                       + (' + Kani function contract / loop-free float lemmas (CBMC)' if c.get('kani') else '')),
+                       + (' + Kani function contract / loop-free float lemmas (CBMC)' if c.get('kani') else '')
+                       + (' + bounded probe of the real crate for the clause no contract reaches (labelled bounded)' if c.get('bounded_probe') else '')),
         ))
     na = [dict(property_id=k, reason=v) for k, v in sorted(NOT_APPLICABLE.items()) if k not in PROPS]
     import subprocess
